@@ -124,6 +124,10 @@ type c17Folder struct {
 	stats   map[string]int
 	// cmdPosCount: how often a plain name occurs in command position
 	cmdPosCount map[string]int
+	// reservedSpellingsAsWords: the program has words spelled like reserved
+	// words (behind an assignment they are command names): no aliases for
+	// reserved words then
+	reservedSpellingsAsWords bool
 }
 
 func (f *c17Folder) fresh() string {
@@ -248,6 +252,19 @@ func (f *c17Folder) fold(s *gen.Stream, depth int) {
 				f.stats["via_trailing_blank"]++
 			}
 		}
+		if !blank && !f.reservedSpellingsAsWords && j < len(s.Toks) && s.Toks[j].Kind == gen.KReserved && rapid.IntRange(0, 2).Draw(f.rt, "blank_before_reserved") == 0 {
+			// a trailing blank in front of a reserved word (directly behind a
+			// compound command, or at the beginning of a command): the word is
+			// examined, but a reserved word is never replaced, whatever the
+			// table says about its spelling
+			if rw := s.Toks[j].FlatText(); !f.used[rw] {
+				if _, defined := f.aliases[rw]; !defined {
+					f.aliases[rw] = "MUST_NOT_APPEAR ;; ("
+				}
+				blank = true
+				f.stats["trailing_blank_before_reserved_word"]++
+			}
+		}
 		if blank {
 			value += rapid.SampledFrom([]string{" ", "  ", "\t"}).Draw(f.rt, "blanks")
 		}
@@ -305,6 +322,7 @@ func TestC17(t *testing.T) {
 			}
 		})
 		afterPrefix := p.Feat["reserved_as_word"] > 0 || p.Feat["quoted_reserved_word"] > 0
+		f.reservedSpellingsAsWords = afterPrefix
 		f.fold(s, 0)
 		// aliases for words in other positions, quoted words and reserved words:
 		// they must never be replaced
@@ -508,6 +526,58 @@ func TestC17(t *testing.T) {
 			}
 		}
 		st.Note("alias chains of depth 1-3 (with and without trailing blanks on the way) that end in the third word of a case or for command (in, do, or in together with the rest of the command), behind a head alias that ends in a blank")
+	}
+
+	// a reserved word directly behind a compound command that came out of an
+	// alias ending in a blank: the word is examined, but reserved words are
+	// never replaced, although the table has an alias for every one of them
+	{
+		compounds := []string{"{ a; }", "( a )", "if a; then b; fi", "while a; do b; done", "until a; do b; done",
+			"for i in x; do b; done", "case x in a) b;; esac", "{ a; } >f", "f() { a; }"}
+		frames := []struct{ pre, post string }{
+			{"if ", " then x; fi"}, {"while ", " do x; done"}, {"until ", " do x; done"},
+			{"if a; then ", " fi"}, {"if a; then ", " else b; fi"}, {"if a; then ", " elif b; then c; fi"},
+			{"if a; then b; else ", " fi"}, {"while a; do ", " done"}, {"for i in x; do ", " done"},
+			{"{ ", " }"}, {"case x in a) ", " esac"}, {"if a; then b; elif ", " then c; fi"},
+		}
+		reservedAliases := map[string]string{}
+		for _, r := range reserved {
+			reservedAliases[r] = "MUST_NOT_APPEAR ;; ("
+		}
+		k := 0
+		for _, c := range compounds {
+			for _, fr := range frames {
+				for bi, bl := range []string{" ", "\t", "  ", ""} {
+					k++
+					if k%nsh != shFwd {
+						continue
+					}
+					unfolded := fr.pre + c + fr.post + "\n"
+					if _, _, err := parser.ParseCommands(nil, "c17", unfolded); err != nil {
+						continue // e.g. a reserved word is not recognised behind a redirection or a function body
+					}
+					al := map[string]string{"grp": c + bl}
+					for r, v := range reservedAliases {
+						al[r] = v
+					}
+					src := fr.pre + "grp" + fr.post + "\n"
+					if bi%2 == 1 {
+						// the same through an alias that only names it (and ends in a blank itself)
+						al["outer"] = "grp" + bl
+						src = fr.pre + "outer" + fr.post + "\n"
+					}
+					// (the words of the frame are reserved words in reserved positions,
+					// with and without the table)
+					fc := c17Fwd{Src: src, Aliases: al, Unfolded: unfolded}
+					if err := checkC17Fwd(fc); err != nil {
+						fail(t, "C17", "forward", fc, "%v", err)
+					}
+					st.EvalN(1, 1)
+					st.Class("reserved_word_behind_a_compound_command_from_a_blank_ended_alias")
+				}
+			}
+		}
+		st.Note("%d compound commands as alias values (ending in a blank, a tab, two blanks or nothing; directly and through an alias that names them) x %d frames in which a reserved word follows directly (then do fi else elif done } esac), with an alias defined for every reserved word", len(compounds), len(frames))
 	}
 
 	// an alias that only names another alias
